@@ -112,11 +112,12 @@ Remove(s, i) == IF i = 0 THEN s ELSE SubSeq(s, 1, i - 1) \o SubSeq(s, i + 1, Len
 
 \* _get_next_job: first job without delegate that is stopped or due, else the one with the least `when`
 Cand == SelectSeq(jobs, LAMBDA r : ~r.d)
+\* seeded model bug stop_priority_lost (change C03-r4m1): a job whose retries were stopped is no longer taken at once
+Prio(r) == (r.stop /\ Bug # "stop_priority_lost") \/ r.when <= now
 NextJob ==
   IF Cand = <<>> THEN NoJob
-  ELSE IF \E i \in DOMAIN Cand : Cand[i].stop \/ Cand[i].when <= now
-         THEN Cand[CHOOSE i \in DOMAIN Cand : (Cand[i].stop \/ Cand[i].when <= now) /\
-                      \A k \in DOMAIN Cand : (Cand[k].stop \/ Cand[k].when <= now) => i <= k]
+  ELSE IF \E i \in DOMAIN Cand : Prio(Cand[i])
+         THEN Cand[CHOOSE i \in DOMAIN Cand : Prio(Cand[i]) /\ \A k \in DOMAIN Cand : Prio(Cand[k]) => i <= k]
          ELSE Cand[CHOOSE i \in DOMAIN Cand : (\A k \in DOMAIN Cand : Cand[i].when <= Cand[k].when) /\
                       \A k \in DOMAIN Cand : (\A m \in DOMAIN Cand : Cand[k].when <= Cand[m].when) => i <= k]
 
